@@ -114,7 +114,7 @@ class State:
         self.mem = {}; self.own = set(); self.threads = [Thread()]; self.cur = 0; self.resumed = False
         self.mutexes = {}; self.pc = []; self.model = None; self.next_obj = 1; self.choices = []; self.obs = []
         self.cover = set(); self.nsym = 0; self.steps = 0; self.nalloc = 0; self.preempt = 0; self.faults = 0
-        self.exc = None; self.caught = []; self.tids = {}; self.abandoned = False; self.tags = set(); self.live_heap = 0; self.shared = {}; self.spawn_mark = 0; self.ptrue = {}; self.pfalse = {}
+        self.exc = None; self.caught = []; self.tids = {}; self.abandoned = False; self.tags = set(); self.live_heap = 0; self.shared = {}; self.spawn_mark = 0; self.ptrue = {}; self.pfalse = {}; self.lastread = None
     @property
     def stack(self): return self.threads[self.cur].stack
     def clone(self):
@@ -125,7 +125,7 @@ class State:
         s.choices = list(self.choices); s.obs = list(self.obs); s.cover = set(self.cover); s.nsym = self.nsym
         s.steps = self.steps; s.nalloc = self.nalloc; s.preempt = self.preempt; s.faults = self.faults
         s.exc = self.exc; s.caught = list(self.caught); s.tids = dict(self.tids); s.abandoned = self.abandoned
-        s.tags = set(self.tags); s.live_heap = self.live_heap; s.shared = dict(self.shared); s.spawn_mark = self.spawn_mark; s.ptrue = dict(self.ptrue); s.pfalse = dict(self.pfalse)
+        s.tags = set(self.tags); s.live_heap = self.live_heap; s.shared = dict(self.shared); s.spawn_mark = self.spawn_mark; s.ptrue = dict(self.ptrue); s.pfalse = dict(self.pfalse); s.lastread = self.lastread
         return s
 
 
@@ -243,6 +243,41 @@ class Engine:
                     for ins in blk:
                         c = node_cls(ins.dbg) if ins.dbg is not None else None
                         ins.lib = c if c is not None else f.cls
+        # which IR atomics are scheduling points in thread mode. Without line tables: by memory ordering (acq_rel read-modify-writes, cmpxchg and
+        # monotonic loads are libstdc++'s shared_ptr / weak_ptr reference counting; everything eventpp itself uses is seq_cst / acquire / release).
+        # With line tables the owner of the atomic is known: skip the frames of the inline chain that lie in the <atomic> headers; if the next frame is
+        # eventpp or harness code the atomic is the user's and is a scheduling point whatever its ordering (a test-and-test-and-set SpinLock spins on a
+        # relaxed load and takes the lock with a compare-exchange).
+        ATOMIC_HDRS = ('atomic', 'atomic_base.h', 'atomicity.h', 'atomic_word.h', 'atomic_futex.h', 'atomic_wait.h')
+        own_cache = {}
+        def atomic_owner(nid):
+            """True: user (eventpp / harness) code issued this atomic; False: library code did; None: unknown"""
+            seen = 0
+            while nid is not None and seen < 64:
+                seen += 1
+                n = md.get(nid)
+                if n is None or n[0] != 'DILocation': return None
+                sc = n[1]; fn = None
+                while sc is not None and sc in md:
+                    m_ = md[sc]
+                    if m_[2] is not None and m_[2] in md: fn = md[m_[2]][4]; break
+                    sc = m_[1]
+                if fn is None: return None
+                if os.path.basename(fn) in ATOMIC_HDRS: nid = n[3]; continue
+                fn = os.path.normpath(fn)
+                return ('/include/eventpp/' in fn) or any(fn.startswith(r) or os.path.realpath(fn).startswith(r) for r in self.harness_roots)
+            return None
+        for f in self.m.funcs.values():
+            if not f.defined: continue
+            for blk in f.blocks.values():
+                for ins in blk:
+                    op = ins.op
+                    if op == 'atomicrmw': byord = ins.c != 'acq_rel'
+                    elif op == 'cmpxchg': byord = False
+                    elif (op == 'load' or op == 'store') and ins.x is not None: byord = ins.x not in NOSCHED_ORD
+                    else: continue
+                    own = atomic_owner(ins.dbg) if (md and ins.dbg is not None) else None
+                    ins.sp = bool(byord or own)
         # line keys (only in line-coverage mode, tools/linecov.py): instruction -> index into self.lines [(eventpp header, line)]
         self.lines = []; self.cov = set()
         if md and self.linecov:
@@ -723,17 +758,32 @@ class Engine:
         return False
 
     def i_load(self, st, work, fr, ins):
-        if ins.x is not None and ins.x not in NOSCHED_ORD and self.mt_point(st, work, fr): return
+        if ins.sp and self.mt_point(st, work, fr): return
         v = ins.ops[0]; p = fr.loc[v.a] if v.k == 'local' else v.a
         if self.shared_points and len(st.threads) > 1 and ins.x is None and self.shared_point(st, work, fr, p): return
         if ins.c[0] == 'agg': fr.loc[ins.res] = self.load_agg(st, p, ins.c[1])
-        else: fr.loc[ins.res] = self.load(st, p, ins.c[0], ins.c[1])
+        else:
+            fr.loc[ins.res] = x = self.load(st, p, ins.c[0], ins.c[1])
+            if ins.sp and len(st.threads) > 1: self.spin_read(st, ins, p, x, ins.c[0])
         fr.ip += 1
 
+    def spin_read(self, st, ins, p, x, w):
+        """spin detection: the running thread has read the same value with the same atomic instruction twice in a row without anybody (itself included)
+        having written shared memory in between: it is spinning on that location and is not enabled again until the location changes"""
+        if is_sym(x) or type(x) is not int: st.lastread = None; return
+        key = (st.cur, id(ins), p, x)
+        lr = st.lastread
+        if lr is not None and lr[0] == key and st.steps - lr[1] <= 48:        # a tight loop, not a caller polling again after doing other work
+            st.threads[st.cur].spin = (p, x, w); st.lastread = None
+        else: st.lastread = (key, st.steps)
+
     def i_store(self, st, work, fr, ins):
-        if ins.x is not None and ins.x not in NOSCHED_ORD and self.mt_point(st, work, fr): return
+        if ins.sp and self.mt_point(st, work, fr): return
         v = ins.ops[0]; x = fr.loc[v.a] if v.k == 'local' else v.a
         v = ins.ops[1]; p = fr.loc[v.a] if v.k == 'local' else v.a
+        if st.lastread is not None and type(p) is tuple:
+            o_ = st.mem.get(p[0]) or self.base.get(p[0])
+            if o_ is None or o_.kind != 'stack': st.lastread = None
         if self.shared_points and len(st.threads) > 1 and ins.x is None and self.shared_point(st, work, fr, p): return
         if type(ins.c) is tuple:
             self.store_agg(st, p, ins.c[1], x if x is not None else self.agg_default(ins.c[1]))
@@ -869,20 +919,23 @@ class Engine:
 
     def i_atomicrmw(self, st, work, fr, ins):
         # acq_rel read-modify-writes are libstdc++'s shared_ptr reference counts: executed atomically, never a scheduling point
-        if ins.c != 'acq_rel' and self.mt_point(st, work, fr): return
+        if ins.sp and self.mt_point(st, work, fr): return
         p = self.val(fr, ins.ops[0]); v = self.val(fr, ins.ops[1]); w = self.lay.sa(ins.ty)[0]
         old = self.load(st, p, w, False)
         new = v if ins.x == 'xchg' else self.binop(st, ins.x, old, v, ins.ty.a, ())
         # spin detection: an xchg that leaves memory unchanged and will be retried (SpinLock::lock)
         self.store(st, p, new, w); fr.loc[ins.res] = old; fr.ip += 1
         if len(st.threads) > 1 and ins.x == 'xchg' and not is_sym(old) and not is_sym(new) and old == new and old != 0:
-            st.threads[st.cur].spin = (p, old)
+            st.threads[st.cur].spin = (p, old, w)
+        elif ins.sp: st.lastread = None
 
     def i_cmpxchg(self, st, work, fr, ins):
+        if ins.sp and self.mt_point(st, work, fr): return
         p = self.val(fr, ins.ops[0]); c = self.val(fr, ins.ops[1]); n = self.val(fr, ins.ops[2]); w = self.lay.sa(ins.ops[1].t)[0]
         old = self.load(st, p, w, False); eq = self.icmp('eq', old, c, ins.ops[1].t)
         if is_sym(eq): eq = self.branch(st, work, eq)
-        if eq: self.store(st, p, n, w)
+        if eq: self.store(st, p, n, w); st.lastread = None
+        elif ins.sp and len(st.threads) > 1: self.spin_read(st, ins, p, old, w)       # a failed compare-exchange is a read
         fr.loc[ins.res] = [old, 1 if eq else 0]; fr.ip += 1
 
     def i_resume(self, st, work, fr, ins):
@@ -1035,8 +1088,8 @@ class Engine:
         if t.status == 'relock': return st.mutexes.get(t.relock) is None
         fr = t.stack[-1]; ins = fr.blk[fr.ip]
         if t.spin is not None:
-            p, old = t.spin
-            try: cur = self.load(st, p, 1, False)
+            p, old, w_ = t.spin
+            try: cur = self.load(st, p, w_, False)
             except Violation: cur = None
             if cur == old: return False
         if ins.op == 'call' or ins.op == 'invoke':
@@ -1081,8 +1134,8 @@ class Engine:
         op = ins.op
         if op == 'call' or op == 'invoke':
             cal = ins.x['callee']; return cal.k == 'global' and cal.a in SYNC
-        if op == 'atomicrmw': return ins.c != 'acq_rel'
-        if op == 'load' or op == 'store': return (ins.x is not None and ins.x not in NOSCHED_ORD) or (self.shared_points and ins.x is None)
+        if op == 'atomicrmw' or op == 'cmpxchg': return ins.sp
+        if op == 'load' or op == 'store': return ins.sp or (self.shared_points and ins.x is None)
         return False
 
     def wake(self, st):
